@@ -179,6 +179,9 @@ def _child(task):
     hist, want_snapshot = task
     try:
         from .. import snapshot as snap
+        if os.environ.get("VERIF_COVERAGE"):
+            from .. import linecov
+            linecov.enable("C03")
         clock.freeze(NOW)
         outs = []
         untouched = []
@@ -192,6 +195,8 @@ def _child(task):
         # the harness's long-lived parser instances are part of the state: whether one exists decides what a later
         # "persistent parser" event does
         h = snap.snapshot(extra_roots=dict(_persist))[0] if want_snapshot else None
+        if os.environ.get("VERIF_COVERAGE"):
+            linecov.flush()
         return {"hist": hist, "outs": outs, "untouched": untouched, "pristine": pristine, "state": h}
     except Exception:  # noqa: BLE001
         import traceback
